@@ -140,6 +140,15 @@
 #define CNL_BUILTIN_OVERFLOW_SUPPORTED_BY_TOOLCHAIN
 #endif
 
+#if defined(JOHNMCFARLANE_CNL_VERIF)
+// verification hook: choose the overflow-detection path independently of the compiler
+#if defined(CNL_VERIF_OVERFLOW_PATH_PORTABLE)
+#undef CNL_BUILTIN_OVERFLOW_SUPPORTED_BY_TOOLCHAIN
+#elif defined(CNL_VERIF_OVERFLOW_PATH_INTRINSIC) && !defined(CNL_BUILTIN_OVERFLOW_SUPPORTED_BY_TOOLCHAIN)
+#define CNL_BUILTIN_OVERFLOW_SUPPORTED_BY_TOOLCHAIN
+#endif
+#endif
+
 #if defined(CNL_BUILTIN_OVERFLOW_SUPPORTED_BY_TOOLCHAIN)
 #define CNL_BUILTIN_OVERFLOW_ENABLED
 #endif
